@@ -127,7 +127,7 @@ def _recovery(spec, ctx):
         mech = 'C04:%s-recovery-outside-band' % fam
         det = dict(where, sup_true=sup_true, ks=ks, band=eps, params={k: float(v) for k, v in p.items()})
         if fam == 'truncnorm' and not inside:
-            lo, hi = float(model.min), float(model.max)
+            lo, hi = float(p['loc'] + p['a'] * p['scale']), float(p['loc'] + p['b'] * p['scale'])   # the fitted support
             rng_ = hi - lo
             # SLSQP stops at, or within a fraction of a percent of, an active bound
             scale_on_bound = p['scale'] >= 0.99 * rng_ ** 2
